@@ -109,6 +109,16 @@ def run_kind(family, kind, timeout_ms=None, config=None):
             out["obligations"].append({"name": f"{family.name}/{kind}/path={path}/engine", "status": "undecided",
                                        "reason": f"{pr.kind}: {pr.exc}", "time": 0.0, "kind": "engine"})
             continue
+        if pr.kind == "raise" and hasattr(family, "late_lemmas"):
+            # the family may supply lemmas (as obligations of their own) needed to show that this exception path is infeasible
+            prev = core._CTX
+            core._CTX = pr.ctx
+            try:
+                family.late_lemmas(pr.ctx, kind, pr.exc)
+            except Exception as e:
+                out["notes"].append(f"late_lemmas failed: {e!r}")
+            finally:
+                core._CTX = prev
         obs = list(pr.ctx.obligations)
         if pr.kind == "raise":
             # an exception escaped that the family's contract did not account for: the path must be infeasible
